@@ -168,8 +168,10 @@ def name_spellings(text, names_lower):
             toks = lex(ln)
         except LexError:
             continue
-        for t, c in toks:
+        for k, (t, c) in enumerate(toks):
             if c == "W" and t.lower() in names_lower:
+                if len(t) == 1 and t.lower() in "boz" and k + 1 < len(toks) and toks[k + 1][1] == "S":
+                    continue    # prefix of a BOZ literal constant, not a name
                 out[t] = out.get(t, 0) + 1
     return out
 
